@@ -121,6 +121,10 @@ def export_to_csv(
                 header.extend([names])
 
             column_map[feature_name] = names
+            if feature_name == tracks.features.tracklet_key:
+                # the track id column is looked up as "track_id" below (colors,
+                # relabeled segmentation), whatever the attribute is called
+                column_map["track_id"] = names
 
     # Determine which nodes to export
     if node_ids is None:
